@@ -143,6 +143,41 @@ pub fn child(thorough: bool) {
                     }
                 }
             }
+            // histories that end with the same files: every file first added under its path with the text of another model template
+            // (every other template in turn, also ones outside the set) and then added again with its own text; a script added and
+            // removed again. The group is a function of the files it holds.
+            if files.len() <= 2 {
+                for other in 0..nt {
+                    let mut g = glass_easel_template_compiler::TmplGroup::new();
+                    for s in script_set.iter() {
+                        g.add_script(SCRIPTS[*s].0, SCRIPTS[*s].1);
+                    }
+                    for f in files.iter() {
+                        if *f != other {
+                            g.add_tmpl(TEMPLATES[*f].0, TEMPLATES[other].1);
+                        }
+                    }
+                    for f in files.iter() {
+                        g.add_tmpl(TEMPLATES[*f].0, TEMPLATES[*f].1);
+                    }
+                    out.builds += 1;
+                    record(&mut out, &key, artefacts(&g, &files), &format!("every file first added with the text of template {:?}, then with its own", TEMPLATES[other].0));
+                }
+                if script_set.len() < SCRIPTS.len() {
+                    let mut g = glass_easel_template_compiler::TmplGroup::new();
+                    for s in script_set.iter() {
+                        g.add_script(SCRIPTS[*s].0, SCRIPTS[*s].1);
+                    }
+                    let extra = (0..SCRIPTS.len()).find(|i| !script_set.contains(i)).unwrap();
+                    g.add_script(SCRIPTS[extra].0, SCRIPTS[extra].1);
+                    for f in files.iter() {
+                        g.add_tmpl(TEMPLATES[*f].0, TEMPLATES[*f].1);
+                    }
+                    g.remove_script(SCRIPTS[extra].0);
+                    out.builds += 1;
+                    record(&mut out, &key, artefacts(&g, &files), &format!("script {:?} added and removed again", SCRIPTS[extra].0));
+                }
+            }
             // import_group: every way to split the templates over two groups (a side may be empty),
             // scripts all in the first / all in the second / split, both directions
             for part in 0u32..(1 << files.len()) {
